@@ -543,6 +543,7 @@ class CoreInterp(sym.Interp):
         variant0 = inv['variant'](self, selfobj, frame) if 'variant' in inv else None
         c = self.eval(s.test, frame)
         if self.truth(c, s.test):
+            iter0 = inv['iter_begin'](self, selfobj, frame) if 'iter_begin' in inv else None
             try:
                 self.exec_block(s.body, frame)
             except sym._Continue:
@@ -551,6 +552,10 @@ class CoreInterp(sym.Interp):
                 raise Unsupported('break in invariant loop')
             for label, g in inv['inv'](self, selfobj, frame):
                 self.oblige(f'{self.site(s)}/preserve/{label}', g)
+            if 'iter_end' in inv:
+                # progress: what one iteration must achieve relative to its own start (not an invariant)
+                for label, g in inv['iter_end'](self, selfobj, frame, iter0):
+                    self.oblige(f'{self.site(s)}/progress/{label}', g)
             if variant0 is not None:
                 v1 = inv['variant'](self, selfobj, frame)
                 a0, a1 = (variant0 if isinstance(variant0, tuple) else (variant0,)), (v1 if isinstance(v1, tuple) else (v1,))
